@@ -14,10 +14,9 @@ pub fn analyze_rows(egraph: &EGraph, enode: &Expr) -> Rows {
     use Expr::*;
     let x = |i: &Id| egraph[*i].data.rows;
     let get_limit_num = |id: &Id| {
+        // (not a constant or not a row count: unknown, the executor reports it)
         (egraph[*id].data.constant.as_ref())
-            .expect("limit should be constant")
-            .as_usize()
-            .unwrap()
+            .and_then(|v| v.as_usize().ok().flatten())
             .map_or(f32::MAX, |x| x as f32)
     };
     let list_len = |id: &Id| egraph[*id].as_list().len();
@@ -86,7 +85,7 @@ pub fn analyze_rows(egraph: &EGraph, enode: &Expr) -> Rows {
         Xor([a, b]) => x(a) + x(b) - 2.0 * x(a) * x(b),
         Not(a) => 1.0 - x(a),
         Gt(_) | Lt(_) | GtEq(_) | LtEq(_) | Eq(_) | NotEq(_) | Like(_) => 0.5,
-        In([_, b]) => 1.0 / x(b),
+        In([_, b]) => 1.0 / x(b).max(1.0), // (an empty subquery must not make it infinite)
         Exists(_) => 0.5,
 
         _ => 1.0,
